@@ -13,6 +13,7 @@ Inside a worker every batch of mutants runs in a forked child (engine: harness/v
 alone with a 4x budget before it counts as a hang. sup.run_workers' own crash attribution and watchdog (with its
 confirmation run) stay in force as the outer net for anything that takes the worker itself down.
 """
+import json
 import os
 
 import sup
@@ -102,5 +103,13 @@ def run(tier, seed, scratch, t0):
 
 
 def replay(rp, scratch):
-    b = rp["replay"]["bin"]
-    return sup.generic_replay(rp, scratch, PKG_OF_BIN.get(b, "vh-formats"))
+    """Replays either a run-time replay file (case index of the recorded run) or a committed witness file, which names
+    the mutant by (seed label, mutation) so that it stays valid when the plan changes (new seeds, new batches)."""
+    r = dict(rp["replay"])
+    w = r.pop("witness", None)
+    if w:
+        r["args"] = list(r.get("args") or []) + ["--wseed", w["seed"], "--wmut", json.dumps(w["mutation"])]
+        r["only"] = 0
+    rp = dict(rp)
+    rp["replay"] = r
+    return sup.generic_replay(rp, scratch, PKG_OF_BIN.get(r["bin"], "vh-formats"))
